@@ -23,7 +23,7 @@ pub fn def() -> CheckDef {
             real: super::REAL_COMPONENTS,
             stub: super::STUB_COMPONENTS,
         },
-        runs: |t| if t.thorough() { 40_000 } else { 1_500 },
+        runs: |t| if t.thorough() { 200_000 } else { 8_000 },
         run,
         execute,
         expected_probes: &["change_added", "change_deleted", "change_changed", "change_unchanged", "kind_swap", "mtime_only_change", "mode_only_change", "owner_only_change", "target_change"],
